@@ -177,6 +177,7 @@ def main(argv=None):
     unknown_baseline = []
     broken_helpers = []       # loop invariants / helper obligations of property-level units that held on the unchanged tree and no longer do
     errors, undecided, refuted_prop, helper_open = [], [], [], []
+    unsound = []              # clauses proved on every path that the executable twin nevertheless saw fail on the real code
     for i, r in res.items():
         for nm in r.get('lemmas_used', []):
             if nm not in established and not a.only:
@@ -302,9 +303,12 @@ def main(argv=None):
             # ... unless the proof was conditional on a loop invariant / helper obligation of the same unit that is itself open
             conditional = any(o['status'] != 'discharged' for i, r in res.items() if _UNITS[i].name == t['unit'] for o in r['obligations'])
             if proved and not anyopen and not conditional and not _UNITS[names.index(t['unit'])].bounded:
-                errors.append((t['unit'], 'ENGINE-UNSOUND: clause %s proved on all paths but fails concretely: %s' % (f['label'], path)))
-            else:
-                violations.append((path, full, ''))
+                # the real code fails the clause on this input: that is a violation with its input, whatever the engine concluded.  The
+                # engine's verdict for this unit is withdrawn (printed, and recorded in the evidence): typically state that outlives one
+                # run of the unit (shared defaults, module-level objects) which a per-path proof does not see
+                unsound.append((t['unit'], f['label'], path))
+                undecided.append((t['unit'], 'ENGINE-UNSOUND: clause %s was discharged on every path but fails on the real code (%s): the proof of this unit is withdrawn' % (f['label'], path)))
+            violations.append((path, full, ''))
     # a loop invariant (or other helper obligation) of a property-level unit that was discharged on the unchanged tree and is not any
     # more: every clause of that unit was proved under it, so the unit no longer establishes the property.  If neither a counter-model
     # nor the executable twin produced a failing input for the unit, the named obligation is reported without one.
@@ -381,10 +385,10 @@ def main(argv=None):
                    known_lines, violations, undecided, helper_open, errors, reran, wall, mod)
     print('%s: obligations=%d discharged=%d undecided=%d twin_cases=%d known_findings=%d violations=%d wall=%.1fs level=%s' %
           (prop, n_obl, n_dis, len(undecided), twin_cases, len(known_lines), len(seen_v), wall, level))
+    if violations:
+        return 1          # a violation stands on its replayable input / named obligation, whatever else went wrong in the run
     if errors:
         return 3
-    if violations:
-        return 1
     if undecided and twin_cases == 0:
         return 2
     return 0
